@@ -261,10 +261,18 @@ def r_name_tables(ctx, rid, floor=2, printer=True):
         rows = guards.decision_table(ctx, fn, 3, True, plain=True)
         disp = {}
         for r in rows:
-            mv = re.match(r'^write_str\(f, "([^"]*)"\)$', r['value'] or '')
-            if len(r['conds']) == 1 and r['conds'][0].startswith('self=') and mv:
-                for v in r['conds'][0][5:].split('|'):
-                    disp[v] = mv.group(1)
+            # one arm per variant writing one literal: `self=V` and write_str(f, "text") as returned value or as the tested write
+            sc = [c for c in r['conds'] if c.startswith('self=')]
+            texts = set(re.findall(r'write_str\(f, "([^"]*)"\)', ' '.join(r['conds']) + ' ' + (r['value'] or '')))
+            others = [c for c in r['conds'] if not c.startswith('self=') and 'write_str(f, "' not in c]
+            if len(sc) == 1 and len(texts) == 1 and not others:
+                for v in sc[0][5:].split('|'):
+                    if disp.get(v, list(texts)[0]) != list(texts)[0]:
+                        disp = None
+                        break
+                    disp[v] = list(texts)[0]
+                if disp is None:
+                    break
             else:
                 disp = None
                 break
